@@ -1,6 +1,6 @@
 (** * Driver: one recorded invocation in, one JSON line out (extracted to OCaml) *)
 From Coq Require Import List String Ascii Bool Arith.
-From Entrait Require Import Tok Sexp Syn Decode Opts Split FnParams Convert Codegen Expand Show Proj Proj2 Proj3 Proj4 Known.
+From Entrait Require Import Tok Sexp Syn Tie Decode Opts Split FnParams Convert Codegen Expand Show Proj Proj2 Proj3 Proj4 Known.
 Import ListNotations.
 Local Open Scope string_scope.
 Local Open Scope list_scope.
@@ -160,7 +160,8 @@ Definition run_case (c : case) : string :=
   let views := views_json cx c model (match model_items with Ok its => Some its | _ => None end) in
   let common := [("site", jstr (c_site c)); ("variant", jstr (c_variant c));
                  ("kind", jstr (match input_kind (c_input c) with Some k => kind_name k | None => "none" end));
-                 ("kind_ok", jbool kind_ok); ("roundtrip", jbool roundtrip)] in
+                 ("kind_ok", jbool kind_ok); ("roundtrip", jbool roundtrip);
+                 ("fields_ok", jbool (input_fields_ok (c_input c)))] in
   let verdict :=
     match model, c_real c with
     | OTokens mts, ROut rts _ =>
